@@ -299,6 +299,11 @@ var c13Witnesses = []string{
 	// name queries on calls with tag arguments followed by more fields, names with format directives
 	"SELECT top(value, host, 2), other FROM cpu", "SELECT bottom(v, a, b, 3), x, y FROM cpu", "SELECT top(v, host, 1), top(v, host, 1) FROM m", "SELECT \"usage%\", \"usage%\" FROM m", "SELECT \"a%%\", \"a%%\", \"%d\" , \"%d\" FROM m",
 	"SELECT (a + b), (a + b) FROM m", "SELECT (v) FROM m", "SELECT host::tag, v::float FROM m WHERE host::tag = 'a' AND v::float > 5",
+	// truncated clauses: whatever the parser accepts of these must still print and walk
+	"SHOW TAG VALUES WITH KEY =~", "SHOW TAG VALUES WITH KEY !~", "SHOW TAG KEYS FROM cpu WITH KEY !~ LIMIT 1", "SHOW TAG VALUES WITH KEY =~ WHERE x = 1", "SHOW TAG VALUES WITH KEY IN ()", "SHOW TAG VALUES WITH KEY =",
+	"SHOW TAG VALUES ON db FROM m WITH KEY =~ /re/ LIMIT 1", "SHOW TAG KEYS WITH KEY !~ /re/", "SELECT v FROM m WHERE x =~", "SELECT v FROM /re", "SELECT v FROM m GROUP BY", "SELECT v FROM m ORDER BY", "SELECT FROM m",
+	// time fields first, last, alone, twice, aliased
+	"SELECT value, time FROM cpu", "SELECT time FROM cpu", "SELECT value, time AS ts FROM cpu", "SELECT time, time, x FROM cpu", "SELECT time AS a, time AS b, v FROM cpu", "SELECT x, time, y, time FROM cpu",
 }
 
 func propC13(o *out, r *rng, thorough bool) {
